@@ -3,6 +3,8 @@ package otto
 import (
 	"encoding/json"
 	"reflect"
+	"unicode"
+	"unicode/utf8"
 )
 
 // FIXME Make a note about not being able to modify a struct unless it was
@@ -129,7 +131,9 @@ func validGoStructName(name string) bool {
 	if name == "" {
 		return false
 	}
-	return 'A' <= name[0] && name[0] <= 'Z' // TODO What about Unicode?
+	// Go's rule for exported names: the first character is an upper case letter.
+	first, _ := utf8.DecodeRuneInString(name)
+	return unicode.IsUpper(first)
 }
 
 func goStructEnumerate(obj *object, all bool, each func(string) bool) {
